@@ -5,7 +5,7 @@ cd /verif
 names="$@"; [ -z "$names" ] && names=$(ls seeded)
 for n in $names; do
   prop=$(python3 -c "import json;print(json.load(open('seeded/$n/meta.json'))['breaks_property'])")
-  git -C /repo apply seeded/$n/patch.diff || { echo "$n: patch does not apply"; continue; }
+  git -C /repo apply /verif/seeded/$n/patch.diff || { echo "$n: patch does not apply"; continue; }
   s=$(date +%s)
   timeout 2400 ./check $prop --tier quick > /tmp/sr_$n.log 2>&1; rc=$?
   git -C /repo checkout -- .
